@@ -187,4 +187,107 @@ theorem stageC_sound (S : St) (rel single kS : Bool) (x y : Rat) (hcur : S.cur =
     simp only [stageC]
     exact lc_noncubic S rel _ cs ⟨by simp [Kind.arity, hl], by decide⟩ (by decide)
 
+theorem stage_quad_to_line (S : St) (rel : Bool) (k : Kind) (cs : List Coord)
+    (ex ey : Coord) (a c1 : Pt)
+    (hseg : (stepCmd S ⟨k, rel, vals cs⟩).2 = [.quad S.cur c1 a])
+    (hcur : (stepCmd S ⟨k, rel, vals cs⟩).1.cur = a)
+    (hstart : (stepCmd S ⟨k, rel, vals cs⟩).1.start = S.start)
+    (hL : (stepCmd S ⟨.L, rel, vals [ex, ey]⟩).1.cur = a)
+    (d1 : c1 = S.cur ∨ c1 = a) :
+    StageOK S rel k cs .L [ex, ey] := by
+  have hLs : (stepCmd S ⟨.L, rel, vals [ex, ey]⟩).2 = [.line S.cur a] := by
+    simp only [stepCmd, vals, List.map] at hL ⊢
+    rw [hL]
+  refine ⟨?_, ?_, ?_⟩
+  · rw [hLs, hseg, filterMap_single, filterMap_single, simp1_degenerate_quad _ _ _ d1]
+  · rw [hL, hcur]
+  · rw [hstart]; simp [stepCmd, vals]
+
+/-- the Q/T block on a spec state that agrees with the model on the current point and on `lq` -/
+theorem stageQ_sound (S : St) (rel single kT : Bool) (x y : Rat) (hcur : S.cur = (x, y)) (k : Kind) (cs : List Coord)
+    (hs : Shaped k cs) :
+    StageOK S rel k cs
+      (stageQ (x, y) (endPoint x y (if rel then x else 0) (if rel then y else 0) k cs) (refl (x, y) S.lq)
+        (if rel then x else 0) (if rel then y else 0) single kT k cs).2.1
+      (stageQ (x, y) (endPoint x y (if rel then x else 0) (if rel then y else 0) k cs) (refl (x, y) S.lq)
+        (if rel then x else 0) (if rel then y else 0) single kT k cs).2.2 ∧
+    (stepCmd S ⟨(stageQ (x, y) (endPoint x y (if rel then x else 0) (if rel then y else 0) k cs) (refl (x, y) S.lq)
+        (if rel then x else 0) (if rel then y else 0) single kT k cs).2.1, rel,
+      vals (stageQ (x, y) (endPoint x y (if rel then x else 0) (if rel then y else 0) k cs) (refl (x, y) S.lq)
+        (if rel then x else 0) (if rel then y else 0) single kT k cs).2.2⟩).1.lq =
+      (stageQ (x, y) (endPoint x y (if rel then x else 0) (if rel then y else 0) k cs) (refl (x, y) S.lq)
+        (if rel then x else 0) (if rel then y else 0) single kT k cs).1 ∧
+    (isQuad k = false →
+      stageQ (x, y) (endPoint x y (if rel then x else 0) (if rel then y else 0) k cs) (refl (x, y) S.lq)
+        (if rel then x else 0) (if rel then y else 0) single kT k cs = (none, k, cs)) := by
+  obtain ⟨hl, hz⟩ := hs
+  have ho := off_eq S rel x y hcur
+  generalize hrx : (if rel then x else 0 : Rat) = rx at ho ⊢
+  generalize hry : (if rel then y else 0 : Rat) = ry at ho ⊢
+  cases k <;> simp only [Kind.arity] at hl
+  case Z => exact absurd rfl hz
+  case Q =>
+    obtain ⟨c1, c2, c5, c6, rfl⟩ := len4 cs hl
+    have hseg : (stepCmd S ⟨.Q, rel, vals [c1, c2, c5, c6]⟩).2 =
+        [.quad S.cur (c1.v + rx, c2.v + ry) (c5.v + rx, c6.v + ry)] := by
+      simp [stepCmd, vals, ho]
+    have hc : (stepCmd S ⟨.Q, rel, vals [c1, c2, c5, c6]⟩).1.cur = (c5.v + rx, c6.v + ry) := by
+      simp [stepCmd, vals, ho]
+    have hst : (stepCmd S ⟨.Q, rel, vals [c1, c2, c5, c6]⟩).1.start = S.start := by
+      simp [stepCmd, vals]
+    have hL : (stepCmd S ⟨.L, rel, vals [c5, c6]⟩).1.cur = (c5.v + rx, c6.v + ry) := by
+      simp [stepCmd, vals, ho]
+    have hLlq : (stepCmd S ⟨.L, rel, vals [c5, c6]⟩).1.lq = none := by simp [stepCmd, vals]
+    simp only [stageQ, endPoint]
+    by_cases h1 : ((c1.v + rx, c2.v + ry) == refl (x, y) S.lq) = true
+    · have h1' := beq_pt.1 h1
+      simp only [h1, if_true]
+      rcases (Bool.eq_false_or_eq_true (!(kT && (c1.v + rx, c2.v + ry) != (c5.v + rx, c6.v + ry)) && single &&
+          onEnds (x, y) (c5.v + rx, c6.v + ry) (c1.v + rx, c2.v + ry))).symm with hcnd | hcnd
+      · simp only [hcnd, Bool.false_eq_true, if_false]
+        have : stepCmd S ⟨.T, rel, vals [c5, c6]⟩ = stepCmd S ⟨.Q, rel, vals [c1, c2, c5, c6]⟩ := by
+          simp only [stepCmd, vals, List.map, ho]
+          rw [hcur, ← h1']
+        refine ⟨⟨by rw [this], by rw [this], by rw [this]⟩, ?_, fun h => by simp [isQuad] at h⟩
+        simp only [stepCmd, vals, List.map, ho]
+        rw [hcur, ← h1']
+      · simp only [hcnd, if_true]
+        simp only [Bool.and_eq_true, onEnds_iff] at hcnd
+        exact ⟨stage_quad_to_line S rel .Q _ c5 c6 _ _ hseg hc hst hL (by rw [hcur]; exact hcnd.2), hLlq,
+          fun h => by simp [isQuad] at h⟩
+    · simp only [h1, if_false]
+      rcases (Bool.eq_false_or_eq_true (!(kT && (c1.v + rx, c2.v + ry) != (c5.v + rx, c6.v + ry)) &&
+          onEnds (x, y) (c5.v + rx, c6.v + ry) (c1.v + rx, c2.v + ry))).symm with hcnd | hcnd
+      · simp only [hcnd, Bool.false_eq_true, if_false]
+        exact ⟨StageOK.refl' _ _ _ _, by simp [stepCmd, vals, ho], fun h => by simp [isQuad] at h⟩
+      · simp only [hcnd, if_true]
+        simp only [Bool.and_eq_true, onEnds_iff] at hcnd
+        exact ⟨stage_quad_to_line S rel .Q _ c5 c6 _ _ hseg hc hst hL (by rw [hcur]; exact hcnd.2), hLlq,
+          fun h => by simp [isQuad] at h⟩
+  case T =>
+    obtain ⟨c5, c6, rfl⟩ := len2 cs hl
+    have hseg : (stepCmd S ⟨.T, rel, vals [c5, c6]⟩).2 =
+        [.quad S.cur (refl (x, y) S.lq) (c5.v + rx, c6.v + ry)] := by
+      simp [stepCmd, vals, ho, hcur]
+    have hc : (stepCmd S ⟨.T, rel, vals [c5, c6]⟩).1.cur = (c5.v + rx, c6.v + ry) := by
+      simp [stepCmd, vals, ho]
+    have hst : (stepCmd S ⟨.T, rel, vals [c5, c6]⟩).1.start = S.start := by
+      simp [stepCmd, vals]
+    have hL : (stepCmd S ⟨.L, rel, vals [c5, c6]⟩).1.cur = (c5.v + rx, c6.v + ry) := by
+      simp [stepCmd, vals, ho]
+    have hLlq : (stepCmd S ⟨.L, rel, vals [c5, c6]⟩).1.lq = none := by simp [stepCmd, vals]
+    simp only [stageQ, endPoint]
+    rcases (Bool.eq_false_or_eq_true (!(kT && refl (x, y) S.lq != (c5.v + rx, c6.v + ry)) && single &&
+        onEnds (x, y) (c5.v + rx, c6.v + ry) (refl (x, y) S.lq))).symm with hcnd | hcnd
+    · simp only [hcnd, Bool.false_eq_true, if_false]
+      exact ⟨StageOK.refl' _ _ _ _, by simp [stepCmd, vals, hcur], fun h => by simp [isQuad] at h⟩
+    · simp only [hcnd, if_true]
+      simp only [Bool.and_eq_true, onEnds_iff] at hcnd
+      exact ⟨stage_quad_to_line S rel .T _ c5 c6 _ _ hseg hc hst hL (by rw [hcur]; exact hcnd.2), hLlq,
+        fun h => by simp [isQuad] at h⟩
+  all_goals
+    refine ⟨by simp only [stageQ]; exact StageOK.refl' _ _ _ _, ?_, fun _ => by simp only [stageQ]⟩
+    simp only [stageQ]
+    exact lq_nonquad S rel _ cs ⟨by simp [Kind.arity, hl], by decide⟩ (by decide)
+
 end Verif.Proofs.SvgSound
